@@ -60,6 +60,7 @@ type Timer struct {
 	t    *sched.T
 	s    *sched.S
 	real *time.Timer
+	f    func()
 }
 
 func AfterFunc(d Duration, f func()) *Timer {
@@ -68,9 +69,9 @@ func AfterFunc(d Duration, f func()) *Timer {
 		if d > 2*time.Millisecond {
 			d = 2 * time.Millisecond
 		}
-		return &Timer{real: time.AfterFunc(d, f)}
+		return &Timer{real: time.AfterFunc(d, f), f: f}
 	}
-	t := &Timer{s: s}
+	t := &Timer{s: s, f: f}
 	t.t = s.Go("timer", true, f)
 	s.Point("time.AfterFunc")
 	return t
@@ -159,3 +160,24 @@ func (t *Ticker) Stop() {
 }
 
 func (t *Ticker) Reset(Duration) {}
+
+// Reset re-arms the timer (it may fire again at any later scheduling point).
+func (t *Timer) Reset(d Duration) bool {
+	if t.real != nil {
+		if d > 2*time.Millisecond {
+			d = 2 * time.Millisecond
+		}
+		return t.real.Reset(d)
+	}
+	active := t.s.Cancel(t.t)
+	if s := sched.Active(); s != nil {
+		if s.TimerFires <= 0 {
+			return active // budget of periodic re-arms used up: the timer stays stopped
+		}
+		s.TimerFires--
+		t.t = s.Go("timer", true, t.f)
+		t.t.LowPrio = true
+		s.Point("Timer.Reset")
+	}
+	return active
+}
